@@ -314,6 +314,12 @@ func main() {
 				open = append(open, x)
 			}
 			sort.Ints(open)
+			if fr := vh.DyingFrames(logf); len(fr) > 0 {
+				site = vh.CodeUnderTestFrame(fr)
+				if site == "" {
+					site = "unknown"
+				}
+			}
 			if site == "unknown" && len(fatal) > 0 {
 				// no repository frame in the dying goroutine: a fault of the harness itself, never a verdict
 				run.Drop("child died outside repository frames")
